@@ -182,7 +182,13 @@ func init() {
 				continue
 			}
 			el := time.Since(time.Unix(0, st))
-			d, _ := callDesc.Load().(string)
+			d := ""
+			if el > 10*time.Second {
+				// the description is only built when it is needed (it formats the whole input)
+				if f, ok := callDesc.Load().(func() string); ok {
+					d = f()
+				}
+			}
 			if len(d) > 4000 {
 				d = d[:4000]
 			}
@@ -217,7 +223,7 @@ func unguarded(f func()) (panicked bool, msg string) {
 }
 
 func guarded(desc func() string, f func()) (panicked bool, msg string) {
-	callDesc.Store(desc())
+	callDesc.Store(desc)
 	callStart.Store(time.Now().UnixNano())
 	defer func() {
 		callStart.Store(0)
@@ -464,6 +470,15 @@ func (s *State) UnmarshalFull(entry string, b, h, dh, eqh, eqb int) V {
 	ev["eqh"] = eqh
 	ev["eqb"] = eqb
 	return s.emit(ev)
+}
+
+// QuietDecode runs b through rtcp.Unmarshal and through the decoder of kind entry without recording
+// events (soak runs: very many distinct inputs in one process). The watchdog is armed, so a call that
+// does not return ends the process with a hang report; a panic is returned for the caller to record.
+func (s *State) QuietDecode(entry string, b []byte, note func() string) (panicked bool) {
+	p1, _ := guardedDecode(note, func() { _, _ = rtcp.Unmarshal(append([]byte(nil), b...)) })
+	p2, _ := guardedDecode(note, func() { _ = NewOf(entry).Unmarshal(append([]byte(nil), b...)) })
+	return p1 || p2
 }
 
 // UnmarshalInto decodes buffer b into the packet handle h already holds (a receiver the caller uses
@@ -750,12 +765,23 @@ func (s *State) Rebuild(h int, v any) V {
 	abs.Spare = nil
 	buildMu.Unlock()
 	if np, ok2 := nw.(rtcp.Packet); ok && ok2 && reflect.TypeOf(old) == reflect.TypeOf(np) {
-		reflect.ValueOf(old).Elem().Set(reflect.ValueOf(np).Elem())
+		// the way a caller changes a packet it holds: by assigning its exported fields (whatever
+		// the library keeps in unexported ones stays)
+		dst, src := reflect.ValueOf(old).Elem(), reflect.ValueOf(np).Elem()
+		if dst.Kind() == reflect.Struct {
+			for i := 0; i < dst.NumField(); i++ {
+				if dst.Type().Field(i).IsExported() {
+					dst.Field(i).Set(src.Field(i))
+				}
+			}
+		} else {
+			dst.Set(src)
+		}
 	} else {
 		s.Pk[h] = nw
 	}
 	delete(s.in, h)
-	return s.emit(V{"op": "build", "h": h, "v": v})
+	return s.emit(V{"op": "build", "h": h, "v": v, "rebuild": true})
 }
 
 // Weight is the number of leaves of the projection of the packet under h (a small packet can decode
